@@ -27,7 +27,8 @@ pub enum TxVerdict {
 }
 
 pub struct Chain {
-	pub blocks: Vec<Block>, // index = height
+	/// blocks[i] is at height BASE_HEIGHT + i
+	pub blocks: Vec<Block>,
 	/// every output ever created on any branch: outpoint -> txout
 	pub all_outputs: HashMap<OutPoint, TxOut>,
 	/// unspent outputs on the active chain: outpoint -> (txout, height confirmed)
@@ -43,15 +44,23 @@ pub struct Chain {
 	nonce: u32,
 }
 
+/// The harness chain starts at a height comparable to a real chain's: the library derives fake
+/// short channel ids (aliases, intercept scids) from the range of heights it has seen and asserts
+/// that they never collide, which presumes far more than a handful of blocks.
+pub const BASE_HEIGHT: u32 = 800_000;
+
 impl Chain {
 	pub fn new() -> Chain {
 		let genesis = bitcoin::constants::genesis_block(Network::Regtest);
 		let mut c = Chain { blocks: vec![], all_outputs: HashMap::new(), utxos: HashMap::new(), spent: HashMap::new(), mempool: vec![], seen: HashSet::new(), confirmed_at: HashMap::new(), fees_paid: 0, stats_validated: 0, stats_conflicts: 0, nonce: 0 };
-		c.blocks.push(Block { header: genesis.header, height: 0, txs: vec![] });
+		c.blocks.push(Block { header: genesis.header, height: BASE_HEIGHT, txs: vec![] });
 		c
 	}
 	pub fn height(&self) -> u32 {
-		self.blocks.len() as u32 - 1
+		BASE_HEIGHT + self.blocks.len() as u32 - 1
+	}
+	pub fn block_at(&self, height: u32) -> &Block {
+		&self.blocks[(height - BASE_HEIGHT) as usize]
 	}
 	pub fn tip(&self) -> &Block {
 		self.blocks.last().unwrap()
@@ -201,14 +210,15 @@ impl Chain {
 		}
 		self.mempool = keep;
 		self.nonce += 1;
-		let header = Header { version: BlockVersion::NO_SOFT_FORK_SIGNALLING, prev_blockhash: self.tip_hash(), merkle_root: TxMerkleNode::all_zeros(), time: 1_700_000_000 + height * 600 + (self.nonce % 500), bits: CompactTarget::from_consensus(0x207fffff), nonce: self.nonce };
+		let header = Header { version: BlockVersion::NO_SOFT_FORK_SIGNALLING, prev_blockhash: self.tip_hash(), merkle_root: TxMerkleNode::all_zeros(), time: 1_700_000_000 + (height - BASE_HEIGHT) * 600 + (self.nonce % 500), bits: CompactTarget::from_consensus(0x207fffff), nonce: self.nonce };
 		let b = Block { header, height, txs: block_txs };
 		self.blocks.push(b.clone());
 		b
 	}
 	/// Disconnect the tip block: its transactions return to the mempool, spends are undone.
 	pub fn disconnect_tip(&mut self) -> Block {
-		let b = self.blocks.pop().expect("cannot disconnect genesis");
+		assert!(self.blocks.len() > 1, "cannot disconnect the first block");
+		let b = self.blocks.pop().unwrap();
 		for tx in b.txs.iter().rev() {
 			let txid = tx.compute_txid();
 			for (k, _) in tx.output.iter().enumerate() {
